@@ -3,6 +3,7 @@ package main
 // Evaluation of specification expressions against a symbolic state.
 
 import (
+	"reflect"
 	"fmt"
 	"go/ast"
 	"go/constant"
@@ -668,6 +669,24 @@ func (env *Env) call(x *Expr) Val {
 			return boolVal("true")
 		}
 		return boolVal("false")
+	case "jsontag":
+		// jsontag(#T, "Field"): the json struct tag of the field (a declaration fact)
+		if len(x.Args) != 2 || x.Args[0].Op != "type" || x.Args[1].Op != "str" {
+			efail("jsontag(#T, \"Field\")")
+		}
+		t := env.resolveType(x.Args[0].Name)
+		stt, ok := t.Underlying().(*types.Struct)
+		if !ok {
+			efail("jsontag: %s is not a struct type", x.Args[0].Name)
+		}
+		for i := 0; i < stt.NumFields(); i++ {
+			if stt.Field(i).Name() == x.Args[1].Name {
+				tag := reflect.StructTag(stt.Tag(i)).Get("json")
+				return Val{T: types.Typ[types.String], L: []string{e.strConst(tag)}}
+			}
+		}
+		efail("jsontag: %s has no field %s", x.Args[0].Name, x.Args[1].Name)
+		return Val{}
 	case "infunc":
 		// infunc("f|g"): the site lies in f or g (or in code inlined into them)
 		if len(x.Args) != 1 || x.Args[0].Op != "str" {
